@@ -1,10 +1,10 @@
 ----------------------------- MODULE MC_Chains -----------------------------
 (* Model-checking configurations of Chains.tla: instance families for the reference builder and the algorithm model. *)
-EXTENDS Chains
+EXTENDS Chains, IOUtils
 
 CONSTANTS NPart,      \* number of particles
           MaxLinks,   \* bound on the number of linked pairs
-          Family      \* "all" | "skeleton" | "appendixC6"  (only the requested family is ever evaluated)
+          Family      \* "all" | "skeleton" | "skeleton2" | "file" | "appendixC6" | "none" (only that one is evaluated)
 
 Pairs(n) == { pq \in (1..n) \X (1..n) : pq[1] # pq[2] }
 
@@ -23,6 +23,15 @@ AllInstances(dummy) == { [n |-> NPart, links |-> s] : s \in { x \in InjSeqs(Pair
 \* order) and every instance over its candidate pairs: all subsets, all distance orders
 SkeletonPairs == { <<4, 2>>, <<1, 2>>, <<5, 3>>, <<1, 6>>, <<1, 5>>, <<6, 4>>, <<3, 6>> }
 SkeletonInstances(dummy) == { [n |-> 6, links |-> s] : s \in { x \in InjSeqs(SkeletonPairs, MaxLinks) : NoRepeat(x) } }
+
+\* the six-particle configuration TLC's random simulation found for the second defect (a join on both sides that cuts
+\* a tail and a head gives both cut pieces the same object number) and every instance over its six pairs
+Skeleton2Pairs == { <<5, 6>>, <<2, 6>>, <<1, 6>>, <<1, 2>>, <<1, 5>>, <<1, 4>> }
+Skeleton2Instances(dummy) == { [n |-> 6, links |-> s] : s \in { x \in InjSeqs(Skeleton2Pairs, MaxLinks) : NoRepeat(x) } }
+
+\* instances handed over by the driver (classification of failing cases): ndjson records {n, links}
+FileInstances(dummy) == LET recs == ndJsonDeserialize(IOEnv.INSTANCE_FILE)
+                        IN  { [n |-> recs[k].n, links |-> recs[k].links] : k \in DOMAIN recs }
 
 AppendixC6 == { [n |-> 6, links |-> << <<4, 2>>, <<1, 2>>, <<5, 3>>, <<1, 6>>, <<1, 5>> >>] }
 
@@ -54,6 +63,8 @@ SimSpec == BuildInit /\ [][SimNext]_vars
 
 FamilyInstances == CASE Family = "all"        -> AllInstances(0)
                      [] Family = "skeleton"   -> SkeletonInstances(0)
+                     [] Family = "skeleton2"  -> Skeleton2Instances(0)
+                     [] Family = "file"       -> FileInstances(0)
                      [] Family = "appendixC6" -> AppendixC6
                      [] OTHER                 -> {}
 =============================================================================
